@@ -203,24 +203,36 @@ def mRegister (rank : String) (s : MState) : Option MState :=
 def useRow (itl pt : List Int) (i : Nat) (coord pos : Int) : Row :=
   .dat (itl.take (i + 1) ++ (pt.take i ++ [coord]) ++ [pos])
 
+/-- append a row to the trace's lists; at the threshold, write the file -/
+def pushRow (s : MState) (rank ty : String) (tr : TraceSt) (data : Row) : Option MState :=
+  match tr.file with
+  | some f =>
+    if (f ++ [data]).length = s.numCachedUses then
+      writeTrace { s with traces := dset s.traces (rank, ty)
+                            { tr with file := some (f ++ [data]), mem := tr.mem.map (· ++ [data]) } } rank ty
+    else
+      some { s with traces := dset s.traces (rank, ty)
+                      { tr with file := some (f ++ [data]), mem := tr.mem.map (· ++ [data]) } }
+  | none => some { s with traces := dset s.traces (rank, ty) { tr with mem := tr.mem.map (· ++ [data]) } }
+
+/-- the tail of `addUse`, after the point has been updated -/
+def recordUse (s : MState) (rank ty : String) (pt : List Int) (i : Nat) (coord pos : Int)
+    (iterNum : Option (List Int)) : Option MState :=
+  match dget s.traces (rank, ty) with
+  | none => some s
+  | some tr =>
+    match (match iterNum with | some l => some l | none => s.iteration) with
+    | none => none
+    | some itl => pushRow s rank ty tr (useRow itl pt i coord pos)
+
+def newPoint (lo : Dict Nat) (pt : List Int) (rank : String) (i : Nat) (coord : Int) : List Int :=
+  if dhas lo rank then pt.set i coord else pt
+
 def mAddUse (rank : String) (coord pos : Int) (ty : String) (iterNum : Option (List Int)) (s : MState) : Option MState :=
   if s.collecting && known s rank then
     match s.lineOrder, s.point, lineIdx s rank with
     | some lo, some pt, some i =>
-      let pt' := if dhas lo rank then pt.set i coord else pt
-      let s1 : MState := { s with point := some pt' }
-      match dget s.traces (rank, ty) with
-      | none => some s1
-      | some tr =>
-        match (match iterNum with | some l => some l | none => s.iteration) with
-        | none => none
-        | some itl =>
-          let data := useRow itl pt' i coord pos
-          let tr' : TraceSt := { tr with file := tr.file.map (· ++ [data]), mem := tr.mem.map (· ++ [data]) }
-          let s2 : MState := { s1 with traces := dset s1.traces (rank, ty) tr' }
-          match tr'.file with
-          | some f => if f.length = s.numCachedUses then writeTrace s2 rank ty else some s2
-          | none => some s2
+      recordUse { s with point := some (newPoint lo pt rank i coord) } rank ty (newPoint lo pt rank i coord) i coord pos iterNum
     | _, _, _ => none
   else none
 
@@ -338,6 +350,21 @@ def session (p : Option String) (client : Prog) (s : MState) : Option (List Ret 
   let (rs, s2) ← client.run s1
   let (_, s3) ← step .endCollect s2
   pure (rs, s3)
+
+/-- the calls a loop nest makes inside a session (everything except opening/closing sessions,
+    declaring/consuming traces, matching ranks and changing the flush threshold) -/
+def MOp.inBody : MOp → Bool
+  | .registerRank _ | .addUse _ _ _ _ _ | .incIter _ | .endIter _ | .getLabel _ | .getIndex _
+  | .getIter | .incCount _ _ _ | .isCollecting | .isTraced _ _ | .dump => true
+  | _ => false
+
+def MOp.isBegin : MOp → Bool
+  | .beginCollect _ => true
+  | _ => false
+
+/-- `beginCollect(p)` followed by `trace(rank, type)` for the given file traces -/
+def openOps (p : String) (keys : List TKey) : List MOp :=
+  .beginCollect (some p) :: keys.map (fun k => .trace k.1 k.2 false)
 
 /-! ### what a user reads after a session -/
 
